@@ -522,6 +522,21 @@ def run_case(case):
                 pass
             except BaseException as exc:  # noqa: BLE001
                 viol.append(V('unknown-class-error', 'unknown-class-error:%s' % type(exc).__name__, 'unknown class name raised %r instead of ValueError' % (exc,)))
+            # ... also when the package that once held the class has a submodule of that name nobody imported (the standard library's
+            # `json` package and its `tool`): a module is not the class the state names
+            import json as _json
+            if 'json.tool' not in sys.modules and not hasattr(_json, 'tool'):
+                obs['submodule_name_probes'] = 1
+                moved = copy.deepcopy(state)
+                moved[persistence.META][persistence.META__CLASS_NAME] = 'json:tool'
+                try:
+                    res = Savable.load(moved)
+                    viol.append(V('unknown-class-loaded', 'unknown-class-loaded:submodule', 'a name that is a submodule, not a class, produced %r instead of ValueError' % (res,)))
+                except ValueError:
+                    pass
+                except BaseException as exc:  # noqa: BLE001
+                    viol.append(V('unknown-class-error', 'unknown-class-error:submodule:%s' % type(exc).__name__, 'a name that is only a submodule of the package raised %r '
+                                  'instead of ValueError' % (exc,)))
             # ... and so is a recorded *loader* that cannot be found any more: the state says which loader understands its identifiers, and
             # reading them with another one (the default) instead is a guess, not a load
             lost = copy.deepcopy(state)
